@@ -91,11 +91,13 @@ config!(CHeap64n, "heap64n", dyn TNone, Heap, Heap, E64a64n, false, 0, "heap", r
 config!(CHeap160a32, "heap160a32", dyn TNone, Heap, Heap, E160a32d, false, 0, "heap", resizable, rawparts);
 #[cfg(feature = "alloc")]
 config!(CHeap0n, "heap0n", dyn TNone, Heap, Heap, E0a1n, false, 0, "heap", resizable, rawparts);
-config!(CFence8d, "fence8d", dyn TNone, fence::FenceMemBuilder, fence::FenceMemBuilder, E8a8d, false, 0, "fence", resizable);
-config!(CFence3n, "fence3n", dyn TNone, fence::FenceMemBuilder, fence::FenceMemBuilder, E3a1n, false, 0, "fence", resizable);
-config!(CFence24d, "fence24d", dyn Cloneable, fence::FenceMemBuilder, fence::FenceMemBuilder, E24a8d, false, 0, "fence", resizable, cloneable);
-config!(CFence160, "fence160", dyn TNone, fence::FenceMemBuilder, fence::FenceMemBuilder, E160a32d, false, 0, "fence", resizable);
-config!(CFence0d, "fence0d", dyn TNone, fence::FenceMemBuilder, fence::FenceMemBuilder, E0a1d, false, 0, "fence", resizable);
+config!(CFence8d, "fence8d", dyn TNone, fence::FenceMemBuilder, fence::FenceMemBuilderK::<1>, E8a8d, false, 0, "fence", resizable);
+config!(CFence3n, "fence3n", dyn TNone, fence::FenceMemBuilder, fence::FenceMemBuilderK::<1>, E3a1n, false, 0, "fence", resizable);
+config!(CFence24d, "fence24d", dyn Cloneable, fence::FenceMemBuilder, fence::FenceMemBuilderK::<1>, E24a8d, false, 0, "fence", resizable, cloneable);
+config!(CFence160, "fence160", dyn TNone, fence::FenceMemBuilder, fence::FenceMemBuilderK::<1>, E160a32d, false, 0, "fence", resizable);
+config!(CFenceOver8d, "fenceover8d", dyn TNone, fence::FenceMemBuilderK<4>, fence::FenceMemBuilderK::<4>, E8a8d, false, 0, "fence", resizable);
+config!(CFenceOver3c, "fenceover3c", dyn Cloneable, fence::FenceMemBuilderK<8>, fence::FenceMemBuilderK::<8>, E3a1n, false, 0, "fence", resizable, cloneable);
+config!(CFence0d, "fence0d", dyn TNone, fence::FenceMemBuilder, fence::FenceMemBuilderK::<1>, E0a1d, false, 0, "fence", resizable);
 config!(CStack24x3, "stack24x3", dyn TNone, Stack<72>, Stack::<72>, E24a8d, true, 3, "stack");
 config!(CStack8x3m, "stack8x3m", dyn TNone, Stack<31>, Stack::<31>, E8a8d, true, 3, "stack");
 config!(CStack8x3p, "stack8x3p", dyn TNone, Stack<25>, Stack::<25>, E8a8d, true, 3, "stack");
@@ -490,7 +492,7 @@ fn main() {
         };
     }
     #[cfg(feature = "alloc")]
-    dispatch!(CEmpty8d, CEmpty0c, CHeap8n, CHeap8d, CHeap8c, CHeap3c, CHeap0c, CHeap8css, CStack8c, CHeap3n, CHeap160, CHeap0d, CHeap1n, CHeap2d, CHeap12d, CHeap16d, CHeap24d, CHeap32d, CHeap64n, CHeap160a32, CHeap0n, CFence8d, CFence3n, CFence24d, CFence160, CFence0d, CStack24x3, CStackN3, CStack8x3m, CStack8x3p, CStack8x2p, CStackN2, CStack16x4, CStack32x4, CStack64x2, CStack0d);
+    dispatch!(CEmpty8d, CEmpty0c, CHeap8n, CHeap8d, CHeap8c, CHeap3c, CHeap0c, CHeap8css, CStack8c, CHeap3n, CHeap160, CHeap0d, CHeap1n, CHeap2d, CHeap12d, CHeap16d, CHeap24d, CHeap32d, CHeap64n, CHeap160a32, CHeap0n, CFence8d, CFence3n, CFence24d, CFence160, CFence0d, CFenceOver8d, CFenceOver3c, CStack24x3, CStackN3, CStack8x3m, CStack8x3p, CStack8x2p, CStackN2, CStack16x4, CStack32x4, CStack64x2, CStack0d);
     #[cfg(not(feature = "alloc"))]
-    dispatch!(CEmpty8d, CEmpty0c, CStack8c, CFence8d, CFence3n, CFence24d, CFence160, CFence0d, CStack24x3, CStackN3, CStack8x3m, CStack8x3p, CStack8x2p, CStackN2, CStack16x4, CStack32x4, CStack64x2, CStack0d);
+    dispatch!(CEmpty8d, CEmpty0c, CStack8c, CFence8d, CFence3n, CFence24d, CFence160, CFence0d, CFenceOver8d, CFenceOver3c, CStack24x3, CStackN3, CStack8x3m, CStack8x3p, CStack8x2p, CStackN2, CStack16x4, CStack32x4, CStack64x2, CStack0d);
 }
